@@ -22,6 +22,7 @@ type GenProfile struct {
 	Lean             bool // big lean batches: few fields, skewed terms
 	DupIDs           bool
 	StoredHeavy      bool
+	Wide             bool // more than 128 field names in a segment (field ids that need two varint bytes)
 }
 
 var richFields = []string{"a", "b", "body", "desc", "name", "tag", "té", "日本", "z", "A", "a1", "ab"}
@@ -38,6 +39,16 @@ func MergeyProfile() GenProfile {
 	return GenProfile{MinDocs: 1, MaxDocs: 6, FieldPool: []string{"a", "b", "c", "é"},
 		TermPool:        []string{"", "a", "ab", "b", "x", "y", "café", "zz"},
 		MaxFieldsPerDoc: 4, MaxToksPerField: 4, Composite: true, DupIDs: true}
+}
+
+// WideProfile: far more fields than fit in a one-byte varint field id, composite field with locations over them.
+func WideProfile() GenProfile {
+	pool := make([]string, 150)
+	for i := range pool {
+		pool[i] = fmt.Sprintf("w%03d", i)
+	}
+	return GenProfile{MinDocs: 5, MaxDocs: 9, FieldPool: pool, TermPool: []string{"a", "b", "x", "café"},
+		MaxFieldsPerDoc: 60, MaxToksPerField: 2, Composite: true, Wide: true}
 }
 
 type vecFieldSpec struct {
@@ -191,10 +202,10 @@ func GenBatch(r *rand.Rand, p *GenProfile, idBase int) []Doc {
 		plan.tv[f] = r.Intn(2) == 0
 	}
 	plan.dv["_all"] = r.Intn(3) == 0
-	plan.tv["_all"] = r.Intn(2) == 0
+	plan.tv["_all"] = r.Intn(2) == 0 || p.Wide
 	// a batch-level subset of the field pool so that field lists differ between batches
 	pool := append([]string(nil), p.FieldPool...)
-	if !p.Lean {
+	if !p.Lean && !p.Wide {
 		r.Shuffle(len(pool), func(i, j int) { pool[i], pool[j] = pool[j], pool[i] })
 		k := 1 + r.Intn(len(pool))
 		if k > 6 {
@@ -259,6 +270,14 @@ func GenBatch(r *rand.Rand, p *GenProfile, idBase int) []Doc {
 			continue
 		}
 		nf := r.Intn(p.MaxFieldsPerDoc + 1)
+		var wideNames []string
+		if p.Wide {
+			// every third name of the pool, so that any three consecutive documents cover all of it
+			for j := i % 3; j < len(pool); j += 3 {
+				wideNames = append(wideNames, pool[j])
+			}
+			nf = len(wideNames)
+		}
 		if p.Vec && r.Intn(4) != 0 {
 			// vector fields: 0..3 integer vectors of one field in a document, duplicates across documents
 			for _, vf := range vecFields {
@@ -290,6 +309,9 @@ func GenBatch(r *rand.Rand, p *GenProfile, idBase int) []Doc {
 			name := pool[r.Intn(len(pool))]
 			if p.Lean {
 				name = pool[k%len(pool)]
+			}
+			if p.Wide {
+				name = wideNames[k]
 			}
 			names = append(names, name)
 			fi := FieldInst{Name: B(name), Typ: int("tndbgsi"[r.Intn(7)])}
@@ -349,9 +371,16 @@ func GenBatch(r *rand.Rand, p *GenProfile, idBase int) []Doc {
 		d.Fields = append(d.Fields, FieldInst{})
 		copy(d.Fields[pos+1:], d.Fields[pos:])
 		d.Fields[pos] = IDField(id)
-		if p.Composite && len(names) > 0 && r.Intn(2) == 0 {
+		if p.Composite && len(names) > 0 && (r.Intn(2) == 0 || p.Wide) {
 			ci := FieldInst{Name: B("_all")}
-			ci.Toks, ci.Len = genToks(r, p, plan.tv["_all"], names)
+			cp := p
+			if p.Wide {
+				// every term, so that the composite's postings lists span all documents
+				w := *p
+				w.MaxToksPerField = 3 * len(p.TermPool)
+				cp = &w
+			}
+			ci.Toks, ci.Len = genToks(r, cp, plan.tv["_all"], names)
 			ci.DV = plan.dv["_all"]
 			d.Composite = append(d.Composite, ci)
 		}
